@@ -247,7 +247,7 @@ func init() {
 	}, propMeta{Technique: "must-pass-through over the SSA CFG + agreement of string constants", LevelText: "all snapshot call sites and all round comparisons are enumerated and decided.", LevelNote: "snapshot/restore functions resolved by role (writer/reader of the package-level map[FrameKey]T)", DesignRef: "4 PAIR, REG-rounds; 5 C15"})
 
 	claim("C16", PropertySpec{
-		Engines: []EngineSpec{rules("PAIR", "PAIR-byvalue", "PAIR-ctx"), rules("ORD", "ORD-flat", "ORD-edge"), rules("REC", "REC-key")},
+		Engines: []EngineSpec{rules("PAIR", "PAIR-byvalue", "PAIR-ctx"), rules("ORD", "ORD-flat", "ORD-flat-use", "ORD-edge"), rules("REC", "REC-key")},
 		Clause: "Visibility state cannot outlive its class body: the evaluator interface takes the Context by value, and every function that sets flags through a *Context parameter resets them in a defer or is called only with the address of the caller's own by-value context; and the registry used to decide 'parent is a Builtin-frame class' keeps the frame (ORD-flat); the ancestor walks (superclass chains of any depth, mixins) keep a visited set keyed by the full node, so no ancestor is pruned because a same-named class was seen (REC-key); the elements of the inheritance lists are edges that carry their kind (include / extend) and are compared with a node identity field by field only — never as whole values, which would leave mixins out of hierarchy tests such as the protected check (ORD-edge).",
 		NotCovered: "resolution order, new/initialize, what the protected check concludes",
 	}, propMeta{Technique: "typestate-style flag pairing over go/ssa + call-graph check of pointer provenance", LevelText: "all functions with a *Context parameter and all their call sites are enumerated and decided.", LevelNote: "trusts the VTA call graph for callers", DesignRef: "4 PAIR; 5 C16"})
